@@ -139,6 +139,18 @@ Ack(n) ==
   /\ files' = Keep(n)
   /\ UNCHANGED <<torn, mem, tab, mnext, uf, next, up, crashes, imq, sig, busy, bigs, afull>>
 
+\* WAL.ManageRetention with the file-count policy (MaxFileCount = 1: "keep the current file only"), as an operator of the
+\* database may call it: every other file goes - unless it reaches unflushedFrom
+DeletableC(i) == /\ i < Len(files)
+                 /\ (Guard /\ uf > 0) => (files[i] # {} /\ Max(files[i]) < uf)    \* (an empty file has unknown bounds: kept)
+KeepC == LET idx == {i \in 1..Len(files) : ~DeletableC(i)}
+             F[k \in 0..Len(files)] == IF k = 0 THEN <<>> ELSE IF k \in idx THEN Append(F[k - 1], files[k]) ELSE F[k - 1]
+         IN F[Len(files)]
+RetainCount ==
+  /\ up /\ Len(files) > 1
+  /\ files' = KeepC
+  /\ UNCHANGED <<torn, mem, tab, mnext, uf, next, up, crashes, imq, sig, busy, bigs, afull, ack>>
+
 \* the process dies; t: inside an append (a partial record is behind the last complete one).  Everything written was
 \* synced (synchronous logging), so no entry is lost from the files
 Die(t) ==
@@ -167,7 +179,7 @@ Recover ==
   /\ uf' = 1
   /\ UNCHANGED <<tab, ack, crashes, sig, busy, bigs>>
 
-Next == Put \/ (\E big \in BOOLEAN : PutQ(big)) \/ BgRun \/ Flush \/ (\E n \in 1..MaxSeq : Ack(n)) \/ (\E t \in BOOLEAN : Die(t)) \/ Recover
+Next == Put \/ (\E big \in BOOLEAN : PutQ(big)) \/ BgRun \/ Flush \/ RetainCount \/ (\E n \in 1..MaxSeq : Ack(n)) \/ (\E t \in BOOLEAN : Die(t)) \/ Recover
 Spec == Init /\ [][Next]_vars
 
 -----------------------------------------------------------------------------
